@@ -49,29 +49,8 @@ IN_PLACE_DERIVATIONS = ("tableau_apply",)       # the held object itself is upda
 # Violations of the unmodified tree that are reported to the coordinator but not yet repaired or recorded: their
 # oracles run, a hit is counted as probe "pending:<fingerprint>" and ends the run quietly instead of raising.
 # Matching is by fingerprint prefix.  VERIF_C11_SHOW_PENDING=1 turns them back into violations.
-PENDING: tuple = (
-    # CliffordTableau caches its hash although apply_x/h/z/cx update it in place
-    "C11-DERIVED:derive:tableau_apply",
-    # hash depends on the order a dict was written in, == does not
-    "C11-HASH:twin:cirq.ProductState", "C11-HASH:twin:cirq._MeasurementSpec", "C11-HASH:twin:cirq.InitObsSetting",
-    # LinearDict with tuple keys is written but cannot be read (keys come back as lists)
-    "C11-SUT-EXCEPTION:json:TypeError@cirq-core/cirq/value/linear_dict.py:_from_json_dict_",
-    # FrozenCircuit / CircuitOperation holding an unhashable operation (KrausChannel, MixedUnitaryChannel)
-    # cannot be written: the encoder memo hashes every SerializableByKey
-    "C11-SUT-EXCEPTION:json:TypeError@cirq-core/cirq/value/value_equality_attr.py:_value_equality_hash:unhashable-type",
-    # MatrixGate built with unitary_check=False (or loosened tolerances) is re-validated on read
-    "C11-SUT-EXCEPTION:json:ValueError@cirq-core/cirq/ops/matrix_gates.py:__init__",
-    "C11-SUT-EXCEPTION:repr:ValueError@cirq-core/cirq/ops/matrix_gates.py:__init__",
-    # boolean options lost by JSON (and ignored by == / repr)
-    "C11-PAYLOAD:json:<cirq.ConstantQubitNoiseModel>#_prepend",
-    "C11-PAYLOAD:json:<cirq.CZTargetGateset>#_preserve_moment_structure",
-    "C11-PAYLOAD:json:<cirq.CZTargetGateset>#_reorder_operations",
-    # repr of a result with zero repetitions loses the array shape
-    "C11-REPR:repr:cirq.ResultDict.records",
-    # reprs that name a module attribute which does not exist
-    "C11-SUT-EXCEPTION:repr:AttributeError@outside-the-tree:module-has-no:ZipLongest",
-    "C11-SUT-EXCEPTION:repr:AttributeError@outside-the-tree:module-has-no:BayesianNetworkGate",
-)
+PENDING: tuple = ()      # nothing is masked: each defect this mechanism once held back is repaired in /repo or
+                         # recorded in known_findings.json (DESIGN 8.2)
 RECIPE_SOURCE_WEIGHTS = ((6, 1, 1), (4, 2, 3), (2, 2, 5))     # generated / stored example / mutated stored example
 
 
@@ -164,6 +143,8 @@ class _Run:
             if f.get("history_dependent") else ""
         self.ctx.event("sut-exception", what, op, f["exc_type"], site)
         parts = op.split(":")
+        if site.startswith("local-function:"):
+            cls = f"{P}-COPY"
         if parts[0] in ("copy", "deepcopy"):
             fam = "copy"
         elif parts[0] == "corpus":
@@ -447,7 +428,8 @@ class _Run:
         new_slot = node.new_slot()
         ctx.decide("derive", node.idx, slot, new_slot, method, json.dumps(args))
         resp = self.call(node, {"op": "derive", "slot": slot, "new_slot": new_slot, "method": method, "args": args,
-                                "recipe": base["recipe"]}, f"derive {method}", vtype=base.get("type"))
+                                "recipe": base["recipe"], "in_place": method in IN_PLACE_DERIVATIONS},
+                         f"derive {method}", vtype=base.get("type"))
         if resp["na"]:
             ctx.event("derive-na", resp["why"].split(":")[0])
             ctx.probe("derive-not-applicable")
